@@ -13,6 +13,7 @@ import (
 	"path"
 	"path/filepath"
 	"strings"
+	"sync"
 	"time"
 )
 
@@ -915,7 +916,9 @@ func HandleTranOldPostNews(cc *hotline.ClientConn, t *hotline.Transaction) (res 
 	newsPost := fmt.Sprintf(newsTemplate+"\r", cc.UserName, time.Now().Format(newsDateTemplate), t.GetField(hotline.FieldData).Data)
 	newsPost = strings.ReplaceAll(newsPost, "\n", "\r")
 
+	messageBoardMu.Lock()
 	_, err := cc.Server.MessageBoard.Write([]byte(newsPost))
+	messageBoardMu.Unlock()
 	if err != nil {
 		cc.Logger.Error("error writing news post", "err", err)
 		return nil
@@ -1246,15 +1249,21 @@ func HandlePostNewsArt(cc *hotline.ClientConn, t *hotline.Transaction) (res []ho
 	return append(res, cc.NewReply(t))
 }
 
+// messageBoardMu serializes use of the message board's shared read cursor.
+var messageBoardMu sync.Mutex
+
 // HandleGetMsgs returns the flat news data
 func HandleGetMsgs(cc *hotline.ClientConn, t *hotline.Transaction) (res []hotline.Transaction) {
 	if !cc.Authorize(hotline.AccessNewsReadArt) {
 		return cc.NewErrReply(t, "You are not allowed to read news.")
 	}
 
+	// The message board has a single read cursor: rewind and read it as one step.
+	messageBoardMu.Lock()
 	_, _ = cc.Server.MessageBoard.Seek(0, 0)
 
 	newsData, err := io.ReadAll(cc.Server.MessageBoard)
+	messageBoardMu.Unlock()
 	if err != nil {
 		cc.Logger.Error("Error reading messageboard", "err", err)
 	}
